@@ -94,8 +94,14 @@ type zooReq struct{ xin, q, cookie, path, host string }
 
 func zooServe(srv *caddyhttp.Server, r zooReq) string {
 	req := httptest.NewRequest("GET", "http://example.test/", nil)
-	req.URL.Path = r.path
-	req.URL.RawQuery = "q=" + url.QueryEscape(r.q)
+	// the request target as it would arrive on the wire: literal braces in the path are legal there
+	// and make net/url keep the client's spelling in URL.RawPath
+	if u, err := url.ParseRequestURI(r.path + "?q=" + url.QueryEscape(r.q)); err == nil {
+		req.URL.Path, req.URL.RawPath, req.URL.RawQuery = u.Path, u.RawPath, u.RawQuery
+	} else {
+		req.URL.Path = r.path
+		req.URL.RawQuery = "q=" + url.QueryEscape(r.q)
+	}
 	req.RequestURI = req.URL.RequestURI()
 	req.Host = r.host
 	req.Header["X-In"] = []string{r.xin}
@@ -138,7 +144,8 @@ func zooServer(cfgIdx int) (*caddyhttp.Server, func(), error) {
 
 func genZoo(rng *core.Rand, emit func(string)) {
 	av := append(attackerValues(), "{env.VERIF_C18_ZOO_ADMIN}", zooAdmin, "{http.regexp.r.1}", "{http.error.message}", "{m}", "{http.request.cookie.c}")
-	paths := []string{"/", "/p", "/{env." + secretEnv + "}", "/a/{http.vars.v}", "/{zz.unk}", "/{env.VERIF_C18_ZOO_ADMIN}"}
+	paths := []string{"/", "/p", "/{env." + secretEnv + "}", "/a/{http.vars.v}", "/{zz.unk}", "/{env.VERIF_C18_ZOO_ADMIN}",
+		"/x%7Benv." + secretEnv + "%7D", "/{file." + fileToken + "}", "/a\\{b"}
 	hosts := []string{"example.test", "{env." + secretEnv + "}", "example.test:80"}
 	cookieVals := []string{"", "plain", "{env." + secretEnv + "}", "{http.vars.v}"}
 	pickReq := func() string {
@@ -160,7 +167,7 @@ func parseZooReq(s string) (zooReq, bool) {
 		}
 		v[i] = x
 	}
-	return zooReq{v[0], v[1], v[2], v[3], v[4]}, true
+	return zooReq{expandTok(v[0]), expandTok(v[1]), expandTok(v[2]), expandTok(v[3]), expandTok(v[4])}, true
 }
 
 func runZoo(line string, f []string) core.Outcome {
